@@ -11,6 +11,40 @@ def lineLoop : Nat → Reader → Bytes → Bytes × Reader
     | ([b], r') => if b == CR then (acc, (r'.read 1).2) else lineLoop k r' (acc ++ [b])
     | (_, r') => (acc, r')
 
+/-- `lineLoop` with the line accumulated in reverse (the definition above appends one byte at a time, which is quadratic
+in the line length when it is *run*; compiled code runs this one instead - `lineLoop_eq_fast` below, `@[csimp]`) -/
+def lineLoopRev : Nat → Reader → Bytes → Bytes × Reader
+  | 0, r, racc => (racc, r)
+  | k+1, r, racc =>
+    match r.read 1 with
+    | ([b], r') => if b == CR then (racc, (r'.read 1).2) else lineLoopRev k r' (b :: racc)
+    | (_, r') => (racc, r')
+
+def lineLoopFast (k : Nat) (r : Reader) (acc : Bytes) : Bytes × Reader :=
+  let x := lineLoopRev k r acc.reverse
+  (x.1.reverse, x.2)
+
+theorem lineLoop_rev (k : Nat) (r : Reader) (acc : Bytes) :
+    lineLoop k r acc = ((lineLoopRev k r acc.reverse).1.reverse, (lineLoopRev k r acc.reverse).2) := by
+  induction k generalizing r acc with
+  | zero => simp [lineLoop, lineLoopRev]
+  | succ k ih =>
+    simp only [lineLoop, lineLoopRev]
+    cases h : r.read 1 with
+    | mk bs r' =>
+      match bs with
+      | [] => simp
+      | [b] =>
+        simp only
+        split
+        · simp
+        · rw [ih]; simp
+      | _ :: _ :: _ => simp
+
+@[csimp] theorem lineLoop_eq_fast : @lineLoop = @lineLoopFast := by
+  funext k r acc
+  simp [lineLoopFast, lineLoop_rev]
+
 /-- the accumulate loop of `nextLengthBytes`: read into the rest of the buffer until `need` more bytes have
 arrived or the stream ends -/
 def lenLoop : Nat → Reader → Nat → Bytes → Bytes × Reader
